@@ -516,7 +516,7 @@ Proof. vm_compute. repeat split; reflexivity. Qed.
 Example C06_example_remove :
   results ex_env ex_ops (Remove 1) = Ok [] /\
   content (exec ex_env init (ex_ops ++ [Remove 1])) 0 = [] /\
-  results ex_env (ex_ops ++ [SetCell 3 (Some 3); Remove 3]) (Remove 3) = Err E_NOTIN /\
+  results ex_env (ex_ops ++ [SetCell 3 (Some 3); Remove 3]) (Remove 3) = Ok [] /\
   ptr (exec ex_env init (ex_ops ++ [SetCell 3 (Some 3); Remove 3])) 3 = Some 3 /\
   content (exec ex_env init (ex_ops ++ [SetCell 3 (Some 3); Remove 3])) 3 = [].
 Proof. vm_compute. repeat split; reflexivity. Qed.
@@ -541,7 +541,7 @@ Proof. vm_compute. repeat split; reflexivity. Qed.
 
 Example C06_example_refinement :
   let ops := ex_ops ++ [SetCell 1 (Some 1); SetCell 3 (Some 3); Remove 3; Remove 3; Move2D 4 [110] 1; Remove 1] in
-  aresults ex_env ainit ops = [Ok []; Ok []; Ok []; Err E_FULL; Ok []; Ok []; Err E_NOTIN; Err E_FULL; Ok []] /\
+  aresults ex_env ainit ops = [Ok []; Ok []; Ok []; Err E_FULL; Ok []; Ok []; Ok []; Err E_FULL; Ok []] /\
   occupants ex_env (aexec ex_env ainit ops) 1 = [2] /\ occupants ex_env (aexec ex_env ainit ops) 3 = [] /\
   a_loc (aexec ex_env ainit ops) 3 = Some 3 /\ a_dang (aexec ex_env ainit ops) 3 = true.
 Proof. vm_compute. repeat split; reflexivity. Qed.
